@@ -111,6 +111,15 @@ func Mark(name string, arg int64) {
 	}
 }
 
+// Pause is a scheduling point that leaves no trace: the thread parks and the schedule decides who moves
+// next, but nothing is recorded (the model has no step for it).  Harness callbacks use it to open the
+// window between two of the library's own steps to other threads.
+func Pause() {
+	if s, t := current(); s != nil {
+		s.yield(t, Op{Tid: t.id, Kind: "pause"})
+	}
+}
+
 // Run executes the bodies as registered threads; pick chooses among the enabled thread ids.
 func (s *Sched) Run(bodies []func(), pick func(enabled []int, step int) int) {
 	s.events = make(chan *thread, len(bodies)+1)
